@@ -54,7 +54,7 @@ theorem C17_translate_reported (m1 : Nat) (A : List (AbsSeg × List Nat)) (i d :
   have hi' : (noDrops A)[i]? = some (s, []) := by simp [noDrops, hi]
   rw [lookup_merge m1 (noDrops A) i d s [] hi', if_pos hd]
   simp only [noDrops, ← List.map_take, List.map_map, List.contains_nil]
-  simp [Function.comp_def, live_nil, Nat.add_comm]
+  simp [Function.comp_def, liveCount_nil, Nat.add_comm]
 
 theorem C17_identity (m m0 : Nat) (X : List (AbsSeg × List Nat)) :
     Equiv (merge m [((merge m0 X).1, [])]).1 (merge m0 X).1 := by
